@@ -13,6 +13,7 @@ from tools import vlib
 from tools.vlib import d2tok, tok2d, ulp_diff
 
 PREC = 1e-10
+PREC_RESOLVE = 1e-8         # FEMM's default precision, used by the warm-started re-solve family
 LAMBDA = 1.5
 
 
@@ -181,6 +182,35 @@ def constrained_reference(A, b, cons):
     br = T.T @ (b - A @ y0)
     z = np.linalg.solve(Ar, br) if len(red) else np.zeros(0)
     return T @ z + y0, float(np.linalg.cond(Ar)) if len(red) else 1.0
+
+
+def scenario_resolve(rng, n):
+    """the pattern of a nonlinear loop: assemble, cold solve, then three rounds of Wipe, re-assembly with slightly drifted coefficients and a
+    WARM-started solve from the previous solution, at a coefficient scale between 1e-9 and 1e6 (the same problem in other units)"""
+    edges, kind = gen_graph(rng, n)
+    scale = rng.choice([1e-9, 1e-6, 1e-3, 1.0, 1e3, 1e6])
+    lines = ["create %d 0" % n]
+    base = []
+    for (a, b) in edges:
+        base.append((rng.uniform(0.5, 4.0), a, b))
+    diag = [rng.uniform(0.05, 1.0) for _ in range(n)]
+    bvec = [rng.uniform(-5, 5) for _ in range(n)]
+    solves = []
+    for rnd in range(4):
+        if rnd:
+            lines.append("wipe")
+        drift = 1.0 + 1e-5 * rnd
+        for (w, a, b) in base:
+            w = w * scale * (drift if (a + b) % 2 else 1.0)
+            lines += ["addto %s %d %d" % (d2tok(w), a, a), "addto %s %d %d" % (d2tok(w), b, b), "addto %s %d %d" % (d2tok(-w), a, b)]
+        for i in range(n):
+            lines.append("addto %s %d %d" % (d2tok(diag[i] * scale), i, i))
+        for i, v in enumerate(bvec):
+            lines.append("setb %d %s" % (i, d2tok(v * scale)))
+        lines.append("dump")
+        lines.append("solve %d %s %s %d" % (1 if rnd else 0, d2tok(PREC_RESOLVE), d2tok(LAMBDA), 40 * n + 200))
+        solves.append(len(lines) - 1)
+    return lines, dict(kind=kind, n=n, scale=scale, solves=solves)
 
 
 def close(a, b, scale, ulps=4, rel=1e-13):
@@ -650,6 +680,45 @@ def main(argv):
                          "(tol %.3g), distance to dense constrained solve %.3g (tol %.3g), n=%d constraints=%s"
                          % (res, tol_res, err, tol_err, n, meta["cons"]),
                          dict(engine="sparse", ops=lines, constraints=meta["cons"], residual=res, error=err, cond=cond))
+    # ---- warm-started re-solves after Wipe + re-assembly, at several coefficient scales
+    nres = 24 if ck.tier == "quick" else 240
+    stats["resolve"] = dict(histories=0, warm_solves=0, scales={})
+    for t in range(nres):
+        n = rng.randint(6, maxn)
+        lines, meta = scenario_resolve(rng, n)
+        rc, rm, _, (code, err) = run_both(lines, False)
+        stats["resolve"]["histories"] += 1
+        stats["resolve"]["scales"]["%g" % meta["scale"]] = stats["resolve"]["scales"].get("%g" % meta["scale"], 0) + 1
+        ck.case(("resolve", n, meta["kind"], meta["scale"]), nontrivial=True,
+                sample=dict(family="re-solve", n=n, scale=meta["scale"], pattern=meta["kind"]) if t == 0 else None)
+        if code != 0:
+            ck.violation("harness-abort", "sparse harness terminated abnormally (rc=%d): %s" % (code, err[-300:]), dict(engine="sparse", ops=lines))
+            continue
+        d = compare_replies(lines, rc, rm, "system")
+        if d:
+            report(lines, d, "system")
+        for rnd, k in enumerate(meta["solves"]):
+            srep = rc[k].split()
+            if srep[0] == "singular":
+                continue
+            _, A1, b1, _ = parse_dump(rc[k - 1])
+            V = np.array([tok2d(t_) for t_ in srep[1:] if t_.startswith("x")])
+            if len(V) != n:
+                V = np.array([tok2d(t_) for t_ in srep[2:]])
+            ref = np.linalg.solve(A1, b1)
+            cond = np.linalg.cond(A1)
+            res = np.linalg.norm(b1 - A1 @ V) / max(np.linalg.norm(b1), 1e-300)
+            errv = np.linalg.norm(V - ref) / max(np.linalg.norm(ref), 1e-300)
+            stats["resolve"]["warm_solves"] += int(rnd > 0)
+            worst_res, worst_err = max(worst_res, res), max(worst_err, errv)
+            stats["resolve"]["worst_residual_over_precision"] = max(stats["resolve"].get("worst_residual_over_precision", 0.0), res / PREC_RESOLVE)
+            # the solver stops on the preconditioned residual; on these well-conditioned systems the true one is within a small factor
+            if not (res <= 50 * PREC_RESOLVE) or not (errv <= 50 * PREC_RESOLVE * max(1.0, cond)):
+                ck.violation("solve-warm-start", "PCGSolve (%s start, pass %d of a Wipe / re-assemble / solve loop, coefficient scale %g, n=%d) returned a vector with "
+                             "true relative residual %.3g and distance %.3g to the dense solve (Precision %.1g, condition %.3g)"
+                             % ("warm" if rnd else "cold", rnd + 1, meta["scale"], n, res, errv, PREC_RESOLVE, cond),
+                             dict(engine="sparse", ops=lines[:k + 1], scale=meta["scale"], residual=res, error=errv, cond=cond))
+                break
     complex_part(ck, build, mx, stats)
     ck.notes.update(dict(input_distribution=stats, worst_true_relative_residual=worst_res,
                          worst_distance_to_dense_constrained_solve=worst_err, precision=PREC,
